@@ -14,3 +14,37 @@ mod tests;
 
 #[cfg(test)]
 pub(crate) use indexer::AsyncRichIndexer;
+
+/// Hooks for the external correspondence harness (feature `verif-hooks`,
+/// add-only): the store pool type and a thin wrapper of the crate-private
+/// `AsyncRichIndexer` (no block / cell filters, no tx-pool overlay) whose
+/// `append` / `rollback` are exactly what `IndexerSync` calls.
+#[cfg(feature = "verif-hooks")]
+pub mod verif_hooks {
+    pub use crate::store::SQLXPool;
+
+    use crate::indexer::AsyncRichIndexer;
+    use ckb_indexer_sync::{CustomFilters, Error};
+    use ckb_types::core::BlockView;
+
+    /// `AsyncRichIndexer` over `store`, constructed as the crate's own tests do.
+    #[derive(Clone)]
+    pub struct VerifRichIndexer(AsyncRichIndexer);
+
+    impl VerifRichIndexer {
+        /// `AsyncRichIndexer::new(store, None, CustomFilters::new(None, None))`
+        pub fn new(store: SQLXPool) -> Self {
+            VerifRichIndexer(AsyncRichIndexer::new(store, None, CustomFilters::new(None, None)))
+        }
+
+        /// `AsyncRichIndexer::append`
+        pub async fn verif_append(&self, block: &BlockView) -> Result<(), Error> {
+            self.0.append(block).await
+        }
+
+        /// `AsyncRichIndexer::rollback`
+        pub async fn verif_rollback(&self) -> Result<(), Error> {
+            self.0.rollback().await
+        }
+    }
+}
